@@ -24,6 +24,9 @@ type Case struct {
 	Model        *ref.SNode `json:"model"`
 	Doc          string     `json:"doc"`
 	KeysOptional bool       `json:"keys_optional"`
+	// History: documents validated on the same schema object before Doc (the verdict for Doc
+	// must not depend on them)
+	History []string `json:"history,omitempty"`
 }
 
 func init() {
@@ -48,8 +51,14 @@ func check(t run.TB, c Case) outcome {
 		t.Fatalf("harness bug: document is not JSON: %v", perr)
 	}
 	want := ref.Shape(c.Model, doc, c.KeysOptional)
-	add, chkRes, val := lib.ValidateSpec(lib.Spec{Schema: c.Schema, KeysOptional: c.KeysOptional}, []byte(c.Doc))
-	_ = add
+	s, _ := lib.Build(lib.Spec{Schema: c.Schema, KeysOptional: c.KeysOptional})
+	chkRes := lib.Check(s)
+	for _, h := range c.History {
+		if r := lib.Validate(s, []byte(h)); r.Panic != "" {
+			run.Fail(t, chk, c, "panic while validating an earlier document: %v", r)
+		}
+	}
+	val := lib.Validate(s, []byte(c.Doc))
 	if chkRes.Panic != "" || val.Panic != "" {
 		run.Fail(t, chk, c, "panic: check=%v validate=%v", chkRes, val)
 	}
@@ -64,7 +73,11 @@ func check(t run.TB, c Case) outcome {
 		if !val.OK && want.OK && nullableContainerNull(c.Model, doc) && run.MatchKnown("C01-nullable-container-rejects-null") {
 			return outcome{}
 		}
-		run.Fail(t, chk, c, "Validate=%v but the example's shape says accept=%v (first difference at depth %d)", val, want.OK, want.DiffDepth)
+		after := ""
+		if len(c.History) > 0 {
+			after = fmt.Sprintf(" [after %d earlier Validate calls on the same schema object]", len(c.History))
+		}
+		run.Fail(t, chk, c, "Validate=%v but the example's shape says accept=%v (first difference at depth %d)%s", val, want.OK, want.DiffDepth, after)
 	}
 	return outcome{judged: true, accepted: val.OK, want: want}
 }
@@ -142,6 +155,7 @@ func TestShape(t *testing.T) {
 		st.MultiLine = rapid.IntRange(0, 5).Draw(t, "multi") == 0
 		schema := string(gen.PrintSchema(model, st))
 		ndocs := rapid.IntRange(2, 6).Draw(t, "ndocs")
+		earlier := map[bool][]string{}
 		for d := 0; d < ndocs; d++ {
 			opt := rapid.Bool().Draw(t, "opt")
 			var doc *ref.Value
@@ -183,6 +197,16 @@ func TestShape(t *testing.T) {
 				}
 				run.Sample(chk, map[string]any{"schema": schema, "doc": string(text), "keys_optional": opt, "accepted": o.accepted, "mutations": muts})
 			}
+			// history independence: the same document on a schema object that has already validated
+			// the earlier documents of this case
+			if o.judged && len(earlier[opt]) > 0 {
+				c4 := c
+				c4.History = append([]string(nil), earlier[opt]...)
+				check(t, c4)
+				run.Eval(chk, false)
+				run.Label("after-earlier-validations")
+			}
+			earlier[opt] = append(earlier[opt], string(text))
 			// order independence: reversed and rotated property order give the same verdict
 			if o.judged && rapid.IntRange(0, 2).Draw(t, "perm") == 0 {
 				for mode := 0; mode < 2; mode++ {
